@@ -322,6 +322,31 @@ M('udf-file-entry-tag-does-not-move', 'fault', ['C05', 'C10'], ['SA-TAG'],
 M('twin-udf-record-temp', 'twin', ['C05', 'C10'], [],
   [(UDF, "                          self.reserve_vd.record(), b'\\x00' * 480)[16:]\n\n        return self.desc_tag.record(rec) + rec\n", "                          self.reserve_vd.record(), b'\\x00' * 480)[16:]\n\n        body = rec\n        return self.desc_tag.record(body) + body\n")])
 
+M('symlink-joliet-guard-truthiness', 'fault', ['C14'], ['SA-VBM.assert'],
+  [(PY, "        if joliet_path is not None and self.joliet_vd is None:\n            # Rule 9\n", "        if joliet_path and self.joliet_vd is None:\n            # Rule 9\n")], 'add_symlink')
+M('twin-symlink-joliet-guard-reordered', 'twin', ['C14'], [],
+  [(PY, "        if joliet_path is not None and self.joliet_vd is None:\n            # Rule 9\n", "        if self.joliet_vd is None and joliet_path is not None:\n            # Rule 9\n")])
+
+M('finish-remove-skips-when-nothing-freed', 'fault', ['C06', 'C11', 'C12'], ['SA-RESHUFFLE.flag'],
+  [(PY, "         Nothing.\n        \"\"\"\n        for pvd in self.pvds:\n            pvd.remove_from_space_size(num_bytes_to_remove)\n", "         Nothing.\n        \"\"\"\n        if num_bytes_to_remove == 0:\n            return\n\n        for pvd in self.pvds:\n            pvd.remove_from_space_size(num_bytes_to_remove)\n")], '_finish_remove')
+
+M('joliet-length-in-code-points', 'fault', ['C09', 'C13'], ['SA-GATE.joliet'],
+  [(PY, "        name = splitpath.pop()\n\n        if len(name) > 64:\n            raise pycdlibexception.PyCdlibInvalidInput('Joliet names can be a maximum of 64 characters')\n        parent = self._find_joliet_record(b'/' + b'/'.join(splitpath))\n\n        return (name.decode('utf-8').encode('utf-16_be'), parent)",
+    "        name = splitpath.pop().decode('utf-8')\n\n        if len(name) > 64:\n            raise pycdlibexception.PyCdlibInvalidInput('Joliet names can be a maximum of 64 characters')\n        parent = self._find_joliet_record(b'/' + b'/'.join(splitpath))\n\n        return (name.encode('utf-16_be'), parent)")], 'unit')
+M('twin-joliet-length-in-utf16-bytes', 'twin', ['C09', 'C13'], [],
+  [(PY, "        name = splitpath.pop()\n\n        if len(name) > 64:\n            raise pycdlibexception.PyCdlibInvalidInput('Joliet names can be a maximum of 64 characters')\n        parent = self._find_joliet_record(b'/' + b'/'.join(splitpath))\n\n        return (name.decode('utf-8').encode('utf-16_be'), parent)",
+    "        name = splitpath.pop().decode('utf-8').encode('utf-16_be')\n\n        if len(name) > 128:\n            raise pycdlibexception.PyCdlibInvalidInput('Joliet names can be a maximum of 64 characters')\n        parent = self._find_joliet_record(b'/' + b'/'.join(splitpath))\n\n        return (name, parent)")])
+
+M('file-links-helper-forgets-delta', 'fault', ['C03', 'C04', 'C05', 'C08', 'C10'], ['SA-ACCT.inverse'],
+  [(RR, "        if not self._initialized:\n            raise pycdlibexception.PyCdlibInternalError('Rock Ridge extension not initialized')\n\n        if self.dr_entries.px_record is None:\n            if self.ce_entries.px_record is None:\n                raise pycdlibexception.PyCdlibInvalidInput('No Rock Ridge file links')\n            self.ce_entries.px_record.posix_file_links += 1\n        else:\n            self.dr_entries.px_record.posix_file_links += 1\n", '        self._adjust_file_links(1)\n'), (RR, "        if not self._initialized:\n            raise pycdlibexception.PyCdlibInternalError('Rock Ridge extension not initialized')\n\n        if self.dr_entries.px_record is None:\n            if self.ce_entries.px_record is None:\n                raise pycdlibexception.PyCdlibInvalidInput('No Rock Ridge file links')\n            self.ce_entries.px_record.posix_file_links -= 1\n        else:\n            self.dr_entries.px_record.posix_file_links -= 1\n", '        self._adjust_file_links(-1)\n'), (RR, '    def add_to_file_links(self):\n', "    def _adjust_file_links(self, delta):\n        # type: (int) -> None\n        if not self._initialized:\n            raise pycdlibexception.PyCdlibInternalError('Rock Ridge extension not initialized')\n\n        if self.dr_entries.px_record is None:\n            if self.ce_entries.px_record is None:\n                raise pycdlibexception.PyCdlibInvalidInput('No Rock Ridge file links')\n            self.ce_entries.px_record.posix_file_links += 1\n        else:\n            self.dr_entries.px_record.posix_file_links += delta\n\n    def add_to_file_links(self):\n")], 'posix_file_links')
+M('twin-file-links-helper', 'twin', ['C03', 'C04', 'C05', 'C08', 'C10'], [],
+  [(RR, "        if not self._initialized:\n            raise pycdlibexception.PyCdlibInternalError('Rock Ridge extension not initialized')\n\n        if self.dr_entries.px_record is None:\n            if self.ce_entries.px_record is None:\n                raise pycdlibexception.PyCdlibInvalidInput('No Rock Ridge file links')\n            self.ce_entries.px_record.posix_file_links += 1\n        else:\n            self.dr_entries.px_record.posix_file_links += 1\n", '        self._adjust_file_links(1)\n'), (RR, "        if not self._initialized:\n            raise pycdlibexception.PyCdlibInternalError('Rock Ridge extension not initialized')\n\n        if self.dr_entries.px_record is None:\n            if self.ce_entries.px_record is None:\n                raise pycdlibexception.PyCdlibInvalidInput('No Rock Ridge file links')\n            self.ce_entries.px_record.posix_file_links -= 1\n        else:\n            self.dr_entries.px_record.posix_file_links -= 1\n", '        self._adjust_file_links(-1)\n'), (RR, '    def add_to_file_links(self):\n', "    def _adjust_file_links(self, delta):\n        # type: (int) -> None\n        if not self._initialized:\n            raise pycdlibexception.PyCdlibInternalError('Rock Ridge extension not initialized')\n\n        if self.dr_entries.px_record is None:\n            if self.ce_entries.px_record is None:\n                raise pycdlibexception.PyCdlibInvalidInput('No Rock Ridge file links')\n            self.ce_entries.px_record.posix_file_links += delta\n        else:\n            self.dr_entries.px_record.posix_file_links += delta\n\n    def add_to_file_links(self):\n")])
+
+M('num-udf-once-per-file-entry-sector', 'fault', ['C02', 'C04', 'C10'], ['SA-PAIR.udf_link_count'],
+  [(PY, "                            ino.linked_records.append((next_entry, False))\n                            ino.num_udf += 1\n", "                            ino.linked_records.append((next_entry, False))\n                            if abs_file_entry_extent not in seen_dir_extents:\n                                ino.num_udf += 1\n")], '_walk_udf_directories')
+M('udf-walk-guard-remembers-other-extent', 'fault', ['C15'], ['SA-TERM'],
+  [(PY, "                        seen_dir_extents.add(abs_file_entry_extent)\n                        udf_file_entries.append(next_entry)", "                        seen_dir_extents.add(abs_file_ident_extent)\n                        udf_file_entries.append(next_entry)")], '_walk_udf_directories')
+
 
 def applicable(m, sources):
     for rel, old, new in m['edits']:
